@@ -58,7 +58,11 @@ impl Decoder for Socks5InitialRequestDecoder {
         let count = src.get_u8() as usize;
         let mut auth_methods = Vec::with_capacity(count);
         for _ in 0..count {
-            auth_methods.push(Socks5AuthMethod::new(src.get_u8())?);
+            // a client may offer methods this implementation does not know (IANA-assigned or private ones): they are
+            // not selectable, which is no reason to refuse the greeting when a known method is offered as well
+            if let Ok(method) = Socks5AuthMethod::new(src.get_u8()) {
+                auth_methods.push(method);
+            }
         }
         Ok(Some(Socks5InitialRequest::new(auth_methods)))
     }
